@@ -154,7 +154,10 @@ def decode_candidates(cpu, isa, mode, per_mn):
             locs = [l for l, v in m]
             fp = tuple(sorted(set(
                 ("mem" if l._is_ptr else ("pc" if (l.etype & 0x10) else ("flag" if (l.etype & 0x20) else "reg"))) for l in locs)))
-            reads_mem = any("M" in str(v) and "(" in str(v) for l, v in m)
+            try:
+                reads_mem = any("M" in str(v) and "(" in str(v) for l, v in m)
+            except RecursionError:
+                reads_mem = True    # a cyclic value (cannot be printed): keep the candidate, the checks will meet it
             pool.setdefault(key, []).append((bb.hex(), key, fp + (("rdmem",) if reads_mem else ())))
         for key in sorted(pool):
             L = pool[key]
